@@ -35,7 +35,11 @@ CONFIGS = [
     {"build_network_map": False, "exclude_pgns": ["windData"]},
     {"exclude_pgns": [60928, 130306]},
     {"include_pgns": [127250, 129029, 127245]},
+    {"exclude_manufacturer_code": ["Garmin", "Furuno"], "exclude_pgns": [60928]},
+    {"include_manufacturer_code": ["Maretron", "Airmar", "Simrad"], "include_pgns": [127250, 129029, 65285, 65286, 130842, 130850, 130820]},
 ]
+# (no configuration with network mapping on: its discovery window makes results depend on the time since construction, which differs
+#  between the used decoder and the fresh baseline by design)
 
 BAD_LINES = ["", "garbage", "A000001.000", "A1.1 zz zz zz", "A000001.000 09FF7 1F112", "X000001.000 09FF7 1F112 00", "A000001.000 09FF7 1F112 0",
              "00:00:00.000 R", "00:00:00.000 Q 09F11201 01 02", "xx R 09F11201 01", "00:00:00.000 R 09F11201 zz", "00:00:00.000 R 09F11201",
@@ -303,6 +307,65 @@ def _work(ctx: Ctx, item):
     ctx.hyp(one, ops(), max_examples=n, name="isolation", rounds=3, shrink=not ctx.quick)
 
 
+def _reclaim(ctx: Ctx, item=None):
+    """Systematic: an address is claimed by a device of one manufacturer, sends data, and is then claimed by a device of another one (and
+    the other way round), for every configuration: afterwards the decoder answers like a fresh one that was given just the claims."""
+    heading = {"kind": "single", "pgn": 127250, "src": PROBE_SRC, "dest": 255, "data": bytes([1, 0x10, 0x27, 0, 0, 0, 0, 0xFD]), "msg": 1}
+    n = 0
+    for ci in range(len(CONFIGS)):
+        for a, b in ((229, 137), (137, 229), (1855, 135), (135, 1855), (229, 229)):
+            ops_ = []
+            for k, mfg in enumerate((a, b)):
+                nm = traffic.iso_name(900 + k, mfg)
+                ops_.append({"op": "feed", "dec": 0, "item": {"kind": "claim", "pgn": 60928, "src": PROBE_SRC, "dest": 255, "data": nm.to_bytes(8, "little"),
+                                                                "msg": 10 * k, "name": nm}})
+                ops_.append({"op": "feed", "dec": 0, "item": dict(heading, msg=10 * k + 1)})
+            res, W = run_case(2, [ci, ci], ops_)
+            ctx.count()
+            ctx.nontrivial_extra += 1
+            n += 1
+            for bk, w, c in res:
+                ctx.report(bk + "|reclaim", w, c)
+    ctx.klass("reclaimed_address_cases", n)
+
+
+def _late(ctx: Ctx, item=None):
+    """A decoder constructed in a process that has been running for a long time (or whose wall clock was stepped) answers like one
+    constructed right after start-up: the moment of construction is not an input."""
+    from nmea2000.decoder import NMEA2000Decoder
+    from ..common import CLOCK
+    heading = {"kind": "single", "pgn": 127250, "src": 33, "dest": 255, "data": bytes([1, 0x10, 0x27, 0, 0, 0, 0, 0xFD])}
+    claim = {"kind": "claim", "pgn": 60928, "src": 34, "dest": 255, "data": traffic.iso_name(77, 137).to_bytes(8, "little")}
+    heading2 = dict(heading, src=34)
+
+    def behaviour(cfg):
+        d = NMEA2000Decoder(**copy.deepcopy(cfg))
+        out = []
+        for it in (heading, claim, heading2, heading):
+            try:
+                out.append(traffic.canon(traffic.feed(d, it)))
+            except Exception as e:
+                out.append(("error", type(e).__name__))
+        return out
+    n = 0
+    for cfg in CONFIGS + [{"build_network_map": True}, {"build_network_map": True, "exclude_manufacturer_code": ["Garmin"]}]:
+        CLOCK.reset()          # (own shard process) back to a young process with an unstepped clock
+        base = behaviour(cfg)
+        for how, amount in (("warp", 700.0), ("warp", 86400.0), ("wall", 3600.0), ("wall", -3600.0)):
+            if how == "warp":
+                CLOCK.warp(amount)
+            else:
+                CLOCK.step_wall(amount)
+            later = behaviour(cfg)
+            ctx.count()
+            ctx.nontrivial_extra += 1
+            n += 1
+            if later != base:
+                ctx.report("C16|construction-time-matters", f"config {cfg}: a decoder constructed after {how} {amount} s behaves differently from one constructed "
+                           f"before: {str(later)[:200]} vs {str(base)[:200]}", {"late": True})
+    ctx.klass("late_construction_cases", n)
+
+
 def _aged(ctx: Ctx, item):
     """A decoder that has seen the whole database (a benign message of every definition, pre-combined and frame by frame, plus junk)
     must decode any further message exactly like a fresh decoder."""
@@ -383,6 +446,8 @@ def _aged(ctx: Ctx, item):
 
 
 def run(ctx: Ctx):
+    pmap(ctx, _reclaim, [None])
+    pmap(ctx, _late, [None])
     pmap(ctx, _aged, [(i, 16, 2 if ctx.quick else 40) for i in range(16)])
     n = 40 if ctx.quick else 1500
     pmap(ctx, _work, [(n,)] * 16)
@@ -392,6 +457,11 @@ def run(ctx: Ctx):
 
 
 def replay(ctx: Ctx, case):
+    if case.get("late"):
+        sub = Ctx(ctx.pid)
+        sub.known_open = {}
+        _late(sub)
+        return [(b, v["what"], v["case"]) for b, v in sub.found.items()]
     if case.get("aged"):
         sub = Ctx(ctx.pid)
         sub.known_open = {}
@@ -407,4 +477,4 @@ def replay(ctx: Ctx, case):
         _aged(sub, (idx % 16, 16, 1))
         return holder
     res, _ = run_case(case["n_dec"], case["cfg"], [unjsonop(o) for o in case["ops"]])
-    return res
+    return res + [(b + "|reclaim", w, c) for b, w, c in res]
